@@ -75,6 +75,14 @@ def handleSuffix (args : List Json) : Json :=
     | _, _ => jerr "bad-name"
   | _ => jerr "bad-args"
 
+/-- `["c22_join", a, b]` : `Path(a).joinpath(Path(b))` -/
+def handleJoin (args : List Json) : Json :=
+  match args with
+  | [a, b] => match asName? a, asName? b with
+    | some a, some b => Json.mkObj [("ok", jname (strOf (join (parse a) (parse b))))]
+    | _, _ => jerr "bad-name"
+  | _ => jerr "bad-args"
+
 def osName : OSErr → String
   | .enoent => "ENOENT" | .enotdir => "ENOTDIR" | .eloop => "ELOOP" | .enametoolong => "ENAMETOOLONG"
 
@@ -156,7 +164,7 @@ def handlePkg (args : List Json) : Json :=
   | _ => jerr "bad-args"
 
 def commands : List (String × (List Lean.Json → Lean.Json)) :=
-  [("c22_path", handlePath), ("c22_suffix", handleSuffix), ("c22_fsop", handleFsop),
+  [("c22_path", handlePath), ("c22_suffix", handleSuffix), ("c22_join", handleJoin), ("c22_fsop", handleFsop),
    ("c22_fsl", handleFsl), ("c22_pkg", handlePkg)]
 
 end Driver.C22
